@@ -6,6 +6,7 @@ import DG.Prune
 import DG.Segment
 import DG.Reload
 import DG.JsrProto
+import DG.ModInfoProto
 /-! Line-protocol driver: one request per line on stdin, one answer per line on stdout. -/
 open DG DG.Sexp
 
@@ -183,6 +184,17 @@ def handle (st : DState) (req : Sexp) : DState × String :=
     match DG.Jsr.Proto.pass? rest with
     | some p => (st, DG.Jsr.Proto.showPass (DG.Jsr.resolvePass p.reg p.names p.mode p.table p.items))
     | none => (st, "bad-op")
+  | .list [.atom "mi-roundtrip", j] =>
+    match DG.MI.Proto.json? j with
+    | some j => (st, DG.MI.Proto.roundtrip j)
+    | none => (st, "bad-op")
+  | .list [.atom "mi-upgrade", lo, hi, line, col, q] =>
+    -- comment range arithmetic of module_graph_1_to_2
+    match nat? lo, nat? hi, nat? line, nat? col, bool? q with
+    | some lo, some hi, some line, some col, some q =>
+      let r := DG.MI.commentRange { line := line, char := col } lo hi q
+      (st, s!"{r.s.line}:{r.s.char}-{r.e.line}:{r.e.char}")
+    | _, _, _, _, _ => (st, "bad-op")
   | .list [.atom "valid"] =>
     (st, match st.graph.valid with | some e => e.show | none => "ok")
   | _ => (st, "bad-op")
